@@ -507,3 +507,36 @@ func bytesFrom(v ssa.Value, pred func(ssa.Value) bool) bool {
 	})
 	return found
 }
+
+// liveValue looks through result variables: while v is a phi of which exactly
+// one incoming edge can still be followed by the instruction `at` (the others
+// carry the placeholder values of the ways out that never get there: a helper
+// that returns `0, err` on failure, inlined, with the caller returning on err),
+// v is the value on that edge.
+func liveValue(v ssa.Value, at ssa.Instruction) ssa.Value {
+	for i := 0; i < 4; i++ {
+		v = ir.Strip(v)
+		ph, ok := v.(*ssa.Phi)
+		if !ok {
+			return v
+		}
+		var live []ssa.Value
+		for j, e := range ph.Edges {
+			reach := false
+			ir.WalkCtx(ph.Block(), 0, ph.Block().Preds[j], nil, func(in ssa.Instruction) bool {
+				if in == at {
+					reach = true
+				}
+				return !reach
+			})
+			if reach {
+				live = append(live, e)
+			}
+		}
+		if len(live) != 1 {
+			return v
+		}
+		v = live[0]
+	}
+	return v
+}
